@@ -776,6 +776,7 @@ package tds
 //@   ensures [grows] err == nil ==> old(ch.$w) <= ch.$w
 //@   ensures [chwf] chwf(ch)
 //@ func (EnvChangePackageField).WriteTo like FieldFmt.WriteTo
+//@   ensures [count] err == nil ==> ch.$w == old(ch.$w) + n
 //@ # Channel entry points of the sender (C01)
 //@ func (*Channel).Reset
 //@   modifies tdsChan.CurrentHeaderType, tdsChan.lastPkgTx, tdsChan.$sent, tdsChan.queueTx.queue, tdsChan.queueTx.indexPacket, tdsChan.queueTx.indexData, tdsChan.queueTx.recvEOM, tdsChan.queueTx.$r, tdsChan.queueTx.$base
